@@ -299,7 +299,9 @@ class URL:
             b"socks5h": 1080,
         }[self.scheme]
         return Origin(
-            scheme=self.scheme, host=self.host, port=self.port or default_port
+            scheme=self.scheme,
+            host=self.host,
+            port=default_port if self.port is None else self.port,
         )
 
     def __eq__(self, other: typing.Any) -> bool:
